@@ -295,10 +295,10 @@ class ScriptedOptimizerPlugin(OptimizerPlugin):
 
 
 class RecordingHandler(ResultHandler):
-    def __init__(self, plan: Any, *, log: list[Any], name: str = "h", abort_at: Any = None) -> None:
+    def __init__(self, plan: Any, *, log: list[Any], tag: str = "h", abort_at: Any = None) -> None:
         super().__init__(plan)
         self._log = log
-        self._name = name
+        self._name = tag
         self._abort_at = abort_at
 
     def handle_event(self, event: Any) -> None:
